@@ -34,6 +34,7 @@
 
 * :class:`_AsyncBytesIO`
 
+    * :meth:`_AsyncBytesIO.getbuffer`
     * :meth:`_AsyncBytesIO.read`
     * :meth:`_AsyncBytesIO.write`
 
@@ -106,6 +107,17 @@ class _AsyncBytesIO:
 
     def __init__(self, bytesio):
         self._bytesio = bytesio
+
+    def getbuffer(self):
+        """Get a view of the contents of the wrapped BytesIO object.
+
+        Returns
+        -------
+        memoryview
+            A view of the buffer
+
+        """
+        return self._bytesio.getbuffer()
 
     async def read(self, size=-1):
         """Read data.
@@ -1116,7 +1128,7 @@ class AdbDeviceAsync(object):
         await self._filesync_send(constants.SEND, adb_info, filesync_info, data=fileinfo)
 
         if progress_callback:
-            total_bytes = (await get_running_loop().run_in_executor(None, os.fstat, stream.fileno())).st_size
+            total_bytes = stream.getbuffer().nbytes if isinstance(stream, _AsyncBytesIO) else (await get_running_loop().run_in_executor(None, os.fstat, stream.fileno())).st_size
 
         while True:
             data = await stream.read(self.max_chunk_size)
